@@ -17,11 +17,13 @@ def generate(src, strip_comments, fn_body, header):
     lines = [header, "import FerrousSpec.Model.Scan", "namespace Ferrous.Gen", ""]
     consts = []
     rank = []
+    slot = []
     for fn in FNS:
         body = fn_body(text, fn)
         if body is None:
             consts.append(None)
             rank.append(None)
+            slot.append(None)
             continue
         d = re.findall(r"if\s+count\s*==\s*0\s*\{\s*(\d+)\s*\}\s*else\s*\{\s*count\s*\}", body)
         c = re.findall(r"min\(\s*scan_count\s*,\s*(\d+)\s*\)", body)
@@ -31,6 +33,13 @@ def generate(src, strip_comments, fn_body, header):
                          and re.search(r"cursor\s+as\s+usize", body)
                          and re.search(r"current_pos\s+as\s+u64", body)
                          and re.search(r"if\s+current_pos\s*>=\s*\w+\.len\(\)\s*\{\s*0\s*\}", body)))
+        # the slot cursor: sorted by name, then stably by scan_slot; start = partition_point(scan_slot < cursor); the loop
+        # goes on inside a group of equal slots; next cursor = scan_slot of the first unexamined element (0 at the end)
+        slot.append(bool(re.search(r"\.sort(_by)?\([^;]*\)\s*;\s*\w+\.sort_by_cached_key\(\s*\|\w+\|\s*scan_slot\(", body)
+                         and re.search(r"let\s+start_pos\s*=\s*\w+\.partition_point\(\s*\|\w+\|\s*scan_slot\([^)]*\)\s*<\s*cursor\s*\)", body)
+                         and re.search(r"while\s*\([^\n]*_examined\s*<\s*max_scan_count\s*\*\s*\d+[^\n]*\)\s*\|\|\s*same_slot_as_previous\(\s*&\w+\s*,\s*start_pos\s*,\s*current_pos\s*,", body)
+                         and re.search(r"if\s+current_pos\s*>=\s*\w+\.len\(\)\s*\{\s*0\s*\}\s*else\s*\{\s*scan_slot\(\s*&\w+\[current_pos\]", body)
+                         and not re.search(r"cursor\s+as\s+usize|current_pos\s+as\s+u64", body)))
     # MATCH: on String::from_utf8_lossy text through pattern_matches(&str, &str), or on the bytes?
     pm = re.search(r"fn\s+pattern_matches\s*\(\s*pattern\s*:\s*&\s*(str|\[u8\])\s*,\s*text\s*:\s*&\s*(str|\[u8\])\s*\)", text)
     lossy = []
@@ -40,13 +49,29 @@ def generate(src, strip_comments, fn_body, header):
             lossy.append(None)
         else:
             lossy.append(pm.group(1) == "str" and "from_utf8_lossy" in body)
-    if None in consts or len(set(consts)) != 1 or None in lossy or len(set(lossy)) != 1:
-        lines.append('def scanCfg : Ferrous.Scan.Cfg := extraction_failed "scan loop constants / MATCH call not recognised or not uniform: %s %s"' % (consts, lossy))
+    # scan_slot itself: FNV-1a 64 of the name, cut to 53 bits; same_slot_as_previous as modelled
+    slot_fn = fn_body(text, "scan_slot")
+    prev_fn = fn_body(text, "same_slot_as_previous")
+    slot_ok = bool(slot_fn and prev_fn
+                   and re.search(r"0xcbf29ce484222325", slot_fn) and re.search(r"0x100000001b3", slot_fn)
+                   and re.search(r"hash\s*\^=\s*byte\s+as\s+u64\s*;\s*hash\s*=\s*hash\.wrapping_mul\(FNV_PRIME\)", slot_fn)
+                   and re.search(r"hash\s*>>\s*11\s*$", slot_fn.strip())
+                   and re.search(r"pos\s*>\s*start\s*&&\s*pos\s*<\s*items\.len\(\)\s*&&\s*scan_slot\(name\(&items\[pos\]\)\)\s*==\s*scan_slot\(name\(&items\[pos\s*-\s*1\]\)\)", prev_fn))
+    use_slot = None
+    if None not in slot and None not in rank:
+        if all(slot) and slot_ok and not any(rank):
+            use_slot = True
+        elif all(rank) and not any(slot):
+            use_slot = False
+    if None in consts or len(set(consts)) != 1 or None in lossy or len(set(lossy)) != 1 or use_slot is None:
+        lines.append('def scanCfg : Ferrous.Scan.Cfg := extraction_failed "scan loop constants / MATCH call / cursor scheme not recognised or not uniform: %s %s rank=%s slot=%s slot_fn=%s"' % (consts, lossy, rank, slot, slot_ok))
     else:
         d, c, f = consts[0]
         lines.append("/-- `count == 0 -> %d`, `min(scan_count, %d)`, `examined < max_scan_count * %d` in scan/hscan/sscan/zscan;" % (d, c, f))
-        lines.append("    MATCH %s. -/" % ("goes through `String::from_utf8_lossy` and `pattern_matches(&str, &str)`" if lossy[0] else "compares bytes (`pattern_matches(&[u8], &[u8])`)"))
-        lines.append("def scanCfg : Ferrous.Scan.Cfg := ⟨%d, %d, %d, %s⟩" % (d, c, f, "true" if lossy[0] else "false"))
+        lines.append("    MATCH %s;" % ("goes through `String::from_utf8_lossy` and `pattern_matches(&str, &str)`" if lossy[0] else "compares bytes (`pattern_matches(&[u8], &[u8])`)"))
+        lines.append("    cursor: %s. -/" % ("the slot (`scan_slot`, FNV-1a 64 >> 11) of the next element in the order of (slot, name)" if use_slot
+                                        else "a rank in the list sorted by name"))
+        lines.append("def scanCfg : Ferrous.Scan.Cfg := ⟨%d, %d, %d, %s, %s⟩" % (d, c, f, "true" if lossy[0] else "false", "true" if use_slot else "false"))
     if None in rank:
         lines.append('def scanCursorIsRank : Bool := extraction_failed "scan/hscan/sscan/zscan not found"')
     else:
